@@ -110,6 +110,13 @@ def check(run):
                                             note="region: get_match_indexes call .. `all_fun[-nextra:] = [all_fun[f] for f in extra_orig]`; initial_sympify through its elementwise "
                                                  "contract, get_match_indexes through its verified contract; the writer of all_equations in between is a snapshot point (verified separately)")
         failed_all += failed
+    for sv in (True, False):
+        st, failed, eng = D.verify_function(run, "generation/simplifier.py", "initial_sympify", (lambda sv=sv: c_dupcheck.initial_sympify_loop_contract(sv)), timeout_ms=10000,
+                                            tag="local loop, %s" % ("expressions kept" if sv else "strings only"),
+                                            note="region: `p = ESRPrinter()` and the loop over the rank's strings (the elementwise callee contract of the canonicalisation region)")
+        failed_all += failed
+    if D.canary(run, "generation/simplifier.py", "initial_sympify", (lambda: c_dupcheck.initial_sympify_loop_contract(True))) is False:
+        raise RuntimeError("canary verified: engine vacuous on the local loop of initial_sympify")
     if D.canary(run, "generation/duplicate_checker.py", "main", (lambda: c_dupcheck.extras_region_contract(True))) is False:
         raise RuntimeError("canary verified: engine vacuous on the canonicalisation region")
     # do_sympy: every pass that rewrites functions leaves its round files and is counted (what the round-combination contract of duplicate_checker.main combines)
